@@ -426,6 +426,67 @@ def evaluatePolysOver (rops : Ops β (Array β)) (B : BaseOps β) (zero : β) (m
     | none => none
     | some offsets => rowMatrixFromPolys rops B.mul zero maxLoop N polys polySize offsets tw
 
+/-! ## `StarkDomain::new(&air)`: a domain whose constraint-evaluation blowup differs from its LDE blowup -/
+
+/-- `usize::next_power_of_two` (`0` and `1` give `1`) -/
+def nextPow2 (x : Nat) : Nat := if x ≤ 1 then 1 else 2 ^ (Nat.log2 (x - 1) + 1)
+
+/-- `TransitionConstraintDegree::new(deg).min_blowup_factor()` (no periodic columns): `none` = its assertion -/
+def minBlowupFactor (deg : Nat) : Option Nat :=
+  if deg = 0 then none else some (max (nextPow2 (deg - 1)) 2)
+
+/-- the fields of `StarkDomain` (prover/src/domain.rs) -/
+structure Domain (β : Type) where
+  traceTwiddles : Array β
+  ceDomainSize : Nat
+  ceToLdeBlowup : Nat
+  offset : β
+
+def Domain.traceLength (d : Domain β) : Nat := d.traceTwiddles.size * 2
+def Domain.ldeDomainSize (d : Domain β) : Nat := d.ceDomainSize * d.ceToLdeBlowup
+/-- `lde_domain_size() / trace_length()`; `none` = division by zero -/
+def Domain.traceToLdeBlowup (d : Domain β) : Option Nat :=
+  if d.traceLength = 0 then none else some (d.ldeDomainSize / d.traceLength)
+def Domain.traceToCeBlowup (d : Domain β) : Option Nat :=
+  if d.traceLength = 0 then none else some (d.ceDomainSize / d.traceLength)
+
+/-- `StarkDomain::new(&air)` for an AIR with trace length `n`, one transition constraint of degree `deg`,
+    LDE blowup `lde` (`ProofOptions::blowup_factor`) and domain offset `offset`: the assertions of `TraceInfo::new`,
+    `ProofOptions::new`, `AirContext::new` that concern these quantities, then the fields of the domain -/
+def starkDomainNew (B : BaseOps β) (n lde deg : Nat) (offset : β) : Option (Domain β) :=
+  -- TraceInfo: length ≥ 8, a power of two; ProofOptions: blowup a power of two in 2..128
+  if ¬ (n ≥ 8 ∧ isPow2 n ∧ isPow2 lde ∧ 2 ≤ lde ∧ lde ≤ 128) then none else
+  match minBlowupFactor deg with
+  | none => none
+  | some ce =>
+    -- AirContext: `options.blowup_factor() >= ce_blowup_factor`; the generators of the trace and LDE domains
+    if lde < ce then none else
+    match ilog2 n, ilog2 (n * lde) with
+    | some kn, some kl =>
+      match B.rootOfUnity kn, B.rootOfUnity kl with
+      | some _, some _ =>
+        -- StarkDomain::new: twiddles, the constraint-evaluation domain
+        match getTwiddles B n, ilog2 (n * ce) with
+        | some tw, some kc =>
+          match B.rootOfUnity kc with
+          | some _ => some { traceTwiddles := tw, ceDomainSize := n * ce, ceToLdeBlowup := n * lde / (n * ce),
+                             offset := offset }
+          | none => none
+        | _, _ => none
+      | _, _ => none
+    | _, _ => none
+
+/-- `RowMatrix::evaluate_polys_over::<N>(polys, domain)` for a domain given by its fields -/
+def evaluatePolysOverDomain (rops : Ops β (Array β)) (B : BaseOps β) (zero : β) (maxLoop N : Nat)
+    (polys : Array (Array β)) (polySize : Nat) (dom : Domain β) : Option (RowMat β) :=
+  if N = 0 then none else
+  match dom.traceToLdeBlowup with
+  | none => none
+  | some b =>
+    match evaluationOffsets B polySize b dom.offset with
+    | none => none
+    | some offsets => rowMatrixFromPolys rops B.mul zero maxLoop N polys polySize offsets dom.traceTwiddles
+
 /-! ## the records the driver runs the model with: raw words of a base field -/
 
 /-- base-field operations on raw words of the field implementation `I` (Winter/Model/Field.lean) -/
